@@ -239,7 +239,7 @@ def oracle(doc, genes):
     return why
 
 
-def collision_db(r):
+def collision_db(r, force_triple=False):
     """generated database with duplicate variant sets, name collisions, labels, fusions with own
     core variants, custom deletions"""
     y = gen_gene.gen_gene(r, pseudogene=r.random() < 0.8, fusions=r.randint(0, 3), custom=r.random() < 0.4, deletion=r.random() < 0.7,
@@ -272,15 +272,26 @@ def collision_db(r):
                 als[new]["label"] = f"{name}*{base}{r.choice('KLMN')}"
     # several sub-alleles of one star allele with pairwise different core sets, all carrying the star allele's label
     # (as CYP2D6*68.001/.002 do): the prefix and the label are taken, the ':n' suffix is needed more than once
-    if len(plain) >= 3 and r.random() < 0.35:
+    if len(plain) >= 1 and (force_triple or r.random() < 0.35):
         srcs = r.sample(plain, min(len(plain), r.randint(3, 4)))
+        while len(srcs) < 3:
+            srcs.append(r.choice(plain))
         base = srcs[0].split("*")[1].split(".")[0]
-        lab = f"{name}*{base}" if r.random() < 0.6 else f"{name}*{base}Q"
+        lab = f"{name}*{base}" if (force_triple or r.random() < 0.6) else f"{name}*{base}Q"
         als[srcs[0]].setdefault("label", lab)
+        seq_ = doc["reference"]["seq"]
+        occupied_ = {e[0] + d_ for a_ in als.values() for e in a_["mutations"] if isinstance(e[0], int) for d_ in range(-3, 5)}
+        free_ = [q for q in range((len(seq_) // 2 + 3) if len(doc["structure"]["genes"]) > 1 else 3, len(seq_) - 6) if q not in occupied_]
         for k, src in enumerate(srcs[1:]):
             new = f"{name}*{base}.{50 + k:03d}"
             if new not in als:
-                als[new] = {"mutations": [list(e) for e in als[src]["mutations"]], "label": lab}
+                ms_ = [list(e) for e in als[src]["mutations"]]
+                if free_:
+                    # a core variant of its own: the groups have pairwise different core sets for sure
+                    q = free_.pop(r.randrange(len(free_)))
+                    free_ = [x for x in free_ if abs(x - q) > 3]
+                    ms_.append([q, f"{seq_[q - 1]}>{r.choice([c for c in 'ACGT' if c != seq_[q - 1]])}", "-", "functional"])
+                als[new] = {"mutations": ms_, "label": lab}
     # variants located in the pseudogene part of the record (the RefSeq covers pseudogene + gene): a fused allele keeps
     # them exactly when it retains that pseudogene region
     if len(doc["structure"]["genes"]) > 1 and r.random() < 0.5:
@@ -330,8 +341,8 @@ def pool(r, quick):
     out = [{"kind": "toy"}]
     for n in dict.fromkeys(chosen):
         out.append({"kind": "shipped", "name": n})
-    for _ in range(40 if quick else 500):
-        out.append({"kind": "generated", "yaml": collision_db(r)})
+    for i_ in range(40 if quick else 500):
+        out.append({"kind": "generated", "yaml": collision_db(r, force_triple=i_ % 5 == 0)})
     return out
 
 
